@@ -16,6 +16,7 @@ package tls
 import (
 	"encoding/binary"
 	"fmt"
+	"io"
 	"reflect"
 	"testing"
 
@@ -273,6 +274,9 @@ func vf04Hello(s *vf04Source, rnd *vfDetRand, name string) (raw []byte, exp vf04
 	cfg := &Config{ServerName: name, OmitEmptyPsk: true}
 	if rnd != nil {
 		cfg.Rand = rnd
+		if vf04ShortReads > 0 {
+			cfg.Rand = &vf04ShortReader{r: rnd, k: vf04ShortReads}
+		}
 	}
 	cp, sp := vfPipe()
 	defer cp.Close()
@@ -351,6 +355,22 @@ func vf04Hello(s *vf04Source, rnd *vfDetRand, name string) (raw []byte, exp vf04
 	}
 }
 
+// vf04ShortReads > 0: Config.Rand hands out at most that many bytes per Read call (legal for an io.Reader: a pipe, a
+// hardware RNG, a small bufio.Reader); the values drawn from it must be as fresh as with a reader that fills the buffer
+var vf04ShortReads int
+
+type vf04ShortReader struct {
+	r io.Reader
+	k int
+}
+
+func (s *vf04ShortReader) Read(p []byte) (int, error) {
+	if len(p) > s.k {
+		p = p[:s.k]
+	}
+	return s.r.Read(p)
+}
+
 func vf04RunSource(st *vfStats, t vfFataler, s *vf04Source, conns int, streamSeed uint64, det bool) {
 	seen := vf04NewSeen()
 	name := "grease.example.test"
@@ -423,6 +443,11 @@ func TestVerifC04WireHellos(t *testing.T) {
 	rapid.Check(t, func(rt *rapid.T) {
 		s := vf04GenSource(rt)
 		stream := rapid.Uint64().Draw(rt, "stream")
+		vf04ShortReads = rapid.SampledFrom([]int{0, 0, 0, 1, 3, 9}).Draw(rt, "rand_short_reads")
+		defer func() { vf04ShortReads = 0 }()
+		if vf04ShortReads > 0 {
+			st.Class("config-rand:short-reads")
+		}
 		vf04RunSource(st, rt, s, vf04Conns, stream, true)
 	})
 }
